@@ -4,12 +4,14 @@
   Reordering stanzas permutes the deferred statements inside each of the three queues of the lazy graph
   (edges, attributes, prints) and the pairs collected per scoped-variable name. Proved here: applying
   attribute assignments in any order succeeds exactly when applying them in the original order succeeds,
-  with the same resulting attribute map (`C08_attrs_order_free`); likewise for edge creation; and the
-  phase order of the evaluate phase. The whole-program statement `C08_full` is kept as a `Prop`; it is
+  with the same resulting attribute map (`C08_attrs_order_free`); a batch of `edge` statements leaves the same edges in
+  any order (`C08_edges_order_free`); the pairs collected for a scoped-variable name may be forced in any order
+  (`C08_scoped_defs_order_free`: same success, same lookups, same machine state); and the phase order of the evaluate phase. The whole-program statement `C08_full` is kept as a `Prop`; it is
   covered by the differential check, which executes every permutation of the stanzas of every generated file.
 -/
 import Tsg.Proofs.Containers
 import Tsg.Sem.Lazy
+import Tsg.Proofs.OrderFree
 
 namespace C08
 
@@ -228,6 +230,52 @@ theorem C08_queue_routing (node src sink : LVal) (as : List (String × LVal)) (e
     (Prog.run (Lazy.pushStmt (.attrNode node as dbg)) ⟨{}, s, ⟨0, none⟩⟩ =
       .ok () ⟨{}, { s with attrQ := s.attrQ ++ [.attrNode node as dbg] }, ⟨0, none⟩⟩) := by
   simp [Lazy.pushStmt, Prog.modifyR, Prog.primP, Prog.run]
+
+
+/-- **`edge` statements are order-free.** Creating a batch of edges (no debug attributes) in any order gives the same
+edges with the same attributes between the same nodes, and keeps the representation invariant: the lazy edge queue may be
+processed in the order of any permutation of the stanzas. (`OrderFree.getEdge_addEdges` says what the batch leaves
+behind: the edges that were there keep their attributes, an edge named by a statement whose source exists is there
+without attributes, nothing else is.) -/
+theorem C08_edges_order_free (g : CGraph) (l l' : List (Nat × Nat)) (hp : l.Perm l') (hinv : CGraph.Inv g) :
+    (∀ a b, (OrderFree.addEdges g l).getEdge a b = (OrderFree.addEdges g l').getEdge a b) ∧
+    (OrderFree.addEdges g l).nodes.length = (OrderFree.addEdges g l').nodes.length ∧
+    CGraph.Inv (OrderFree.addEdges g l) ∧ CGraph.Inv (OrderFree.addEdges g l') :=
+  OrderFree.edges_order_free g l l' hp hinv
+
+/-- `OrderFree.addEdgeG` is what one lazy `edge` statement does to the graph when debug attributes are off -/
+example (g : CGraph) (src sink : Nat) :
+    OrderFree.addEdgeG g (src, sink) = ((GraphOp.addEdge src sink []).apply g).2 := rfl
+
+/-- **the definitions of a scoped variable may be collected in any order.** Reordering stanzas (or matches) permutes the
+`(scope, value)` pairs collected for a name. With the scopes known and the run not cancelled, forcing the permuted pairs
+(`Lazy.forcePairs`, the model of `LazyScopedVariables::force`) succeeds exactly when forcing the original pairs succeeds;
+on success both leave the same machine state and the two maps answer every lookup alike (so every read — own node or
+nearest ancestor — sees the same value); on failure both report a duplicate variable. -/
+theorem C08_scoped_defs_order_free (cfg : Cfg) (ef : Nat) (name : String) (l l' : List OrderFree.Def) (hp : l.Perm l')
+    (s : Prog.MSt LSt) (hc : s.ps.cancelAt = none) :
+    match Prog.run (Lazy.forcePairs cfg (ef + 1) name (OrderFree.liftDefs l) [] []) s,
+          Prog.run (Lazy.forcePairs cfg (ef + 1) name (OrderFree.liftDefs l') [] []) s with
+    | .ok m s1, .ok m' s2 => s1 = s2 ∧ ∀ k, m.lookup k = m'.lookup k
+    | .fail f _, .fail f' _ => (∃ a b, f = (Fail.err (.base .duplicateVariable "")).withContext (.stmt [a, b])) ∧
+                               (∃ a b, f' = (Fail.err (.base .duplicateVariable "")).withContext (.stmt [a, b]))
+    | _, _ => False := by
+  have h := OrderFree.scoped_defs_order_free cfg ef name l l' hp s hc
+  cases hr1 : Prog.run (Lazy.forcePairs cfg (ef + 1) name (OrderFree.liftDefs l) [] []) s with
+  | ok m s1 =>
+    cases hr2 : Prog.run (Lazy.forcePairs cfg (ef + 1) name (OrderFree.liftDefs l') [] []) s with
+    | ok m' s2 => rw [hr1, hr2] at h; exact h
+    | fail _ _ => rw [hr1, hr2] at h; exact h
+  | fail _ _ =>
+    cases hr2 : Prog.run (Lazy.forcePairs cfg (ef + 1) name (OrderFree.liftDefs l') [] []) s with
+    | ok m' s2 => rw [hr1, hr2] at h; exact h
+    | fail _ _ => rw [hr1, hr2] at h; exact h
+
+/-- non-vacuity: two definitions on different nodes succeed; a third on the first node is a duplicate, wherever it stands -/
+example : OrderFree.pureForce [(1, .value (.int 1), default), (2, .value (.int 2), default)] [] [] =
+    .ok [(1, .value (.int 1)), (2, .value (.int 2))] := rfl
+example : ∃ e, OrderFree.pureForce [(1, LVal.value (.int 1), default), (2, .value (.int 2), default), (1, .value (.int 3), default)] [] [] = .error e :=
+  ⟨_, rfl⟩
 
 /-- the property as stated, for the lazy model -/
 def C08_full (Iso : CGraph → CGraph → Prop) : Prop :=
